@@ -15,7 +15,7 @@ LEVEL = "exploration"
 RULE = (
     "Hypothesis draws a configuration (2-4 tee children, each run by its own task; a cancellation-safe class "
     "source of 0-4 items (thorough 0-6) that suspends 0-2 times per item and creates its items lazily; a FIFO "
-    "lock double or none - only 'lock given or source never suspends', as the property states; per child "
+    "lock double (optionally suspending when acquired uncontended and when RELEASED) or none - only 'lock given or source never suspends', as the property states; per child "
     "'close after j items' with j from 0; optionally one task cancelled at its s-th suspension) and a schedule "
     "(list of ints choosing which ready task advances at each step; tasks also suspend between items). "
     "The thorough tier additionally ENUMERATES ALL schedules of the small configurations (<= 3 children x <= 2 "
@@ -88,7 +88,8 @@ def configs(draw, tier):
     length = draw(st.integers(0, 4 if tier == "quick" else 6))
     closes = [draw(st.one_of(st.none(), st.none(), st.integers(0, length + 1))) for _ in range(n)]
     cancel = draw(st.one_of(st.none(), st.tuples(st.integers(0, n - 1), st.integers(1, 8))))
-    return {"n": n, "lock": lock, "lock_susp": draw(st.booleans()) if lock else False, "susp": susp,
+    return {"n": n, "lock": lock, "lock_susp": draw(st.booleans()) if lock else False,
+            "lock_release_susp": draw(st.booleans()) if lock else False, "susp": susp,
             "length": length, "closes": closes, "cancel": list(cancel) if cancel else None,
             "between": draw(st.booleans()), "close_after_cancel": draw(st.booleans()),
             "choices": draw(st.lists(st.integers(0, 3), max_size=60))}
@@ -98,7 +99,8 @@ def run_config(case, choices=None, default="rr"):
     ctx = Ctx("a")
     n = case["n"]
     src = LazySource(ctx, case["length"], case["susp"])
-    lock = Lock(ctx, "lock", suspend_uncontended=case["lock_susp"]) if case["lock"] else None
+    lock = Lock(ctx, "lock", suspend_uncontended=case["lock_susp"],
+                release_susp=case.get("lock_release_susp", False)) if case["lock"] else None
     handle = a.tee(src, n, lock=lock) if lock is not None else a.tee(src, n)
     children = list(handle)
     got = [[] for _ in range(n)]
@@ -188,7 +190,11 @@ def run_config(case, choices=None, default="rr"):
                 if kind == "raise" and not (value is cancel_obj and state[i] == "cancelled"):
                     return sched, [("consumer-raised", f"child {i}: {value!r}")], contention[0]
             front = max(len(g) for g in got)
-            if src.idx != front:
+            # a consumer cancelled at the lock's release suspension has fetched an item it never receives;
+            # if no other child is left to take it from its buffer the item is legitimately undelivered
+            slack = 1 if (case["cancel"] and case.get("lock_release_susp") and
+                          any(s == "cancelled" for s in state)) else 0
+            if not (front <= src.idx <= front + slack):
                 return sched, [("source-item-fetched-but-never-delivered-or-fetched-twice",
                                 f"served={src.idx} furthest child={front} got={got}")], contention[0]
             if lock is not None and (lock.locked or lock.waiters or lock.acquired != lock.released or lock.errors):
@@ -239,6 +245,10 @@ def small_configs():
                         for closes in closes_options:
                             if n == 3 and (between and susp):
                                 continue  # too many interleavings: covered by sampling
+                            if lock and n == 2 and not between:
+                                out.append({"n": n, "lock": lock, "lock_susp": False, "lock_release_susp": True,
+                                            "susp": susp, "length": length, "closes": closes, "cancel": None,
+                                            "between": between, "choices": []})
                             out.append({"n": n, "lock": lock, "lock_susp": False, "susp": susp,
                                         "length": length, "closes": closes, "cancel": None,
                                         "between": between, "choices": []})
